@@ -1016,7 +1016,8 @@ class LanguageGraph():
                 else:
                     attack_steps[step['name']]['reaches'] = {
                         'overrides': False,
-                        'stepExpressions': step['reaches']['stepExpressions']
+                        'stepExpressions': copy.deepcopy(
+                            step['reaches']['stepExpressions'])
                     }
 
 
